@@ -15,7 +15,7 @@ import (
 func init() { register("C43", "exploration", checkC43) }
 
 func checkC43(r *ev.Run) {
-	nScripts := r.N(6, 150)
+	nScripts := r.N(16, 150)
 	blocks := r.N(60, 110)
 	r.Rule(chaosRule + " At the last height the application state is exported with ExportAppState (the node's own export path); a FRESH process then starts a new chain whose genesis is exactly that export and runs InitChain; the state right after InitChain is decoded from the persisted stores the same way as the exporter's last committed state and compared: every non-empty balance, the supply, every node and application record (status, tokens, jailed, chains, URL, unstaking time, output address, delegators), every parameter, the pending claims. An importer that exits during InitChain is a violation with its output as witness. Non-trivial = the exported state contained unstaking or jailed nodes and changed parameters; distinct = script digest.")
 	ev.ForEach(nScripts, workers(), func(si int) {
